@@ -318,9 +318,11 @@ claim(
     'measured run times decide no branch outside the statistics; the '
     'sequential ddmin driver adopts in generation order and the latch rule '
     '(C05.R1) makes the first success of a sweep the adopted one; node ids '
-    'and hashes reach neither leaf text nor sort keys, except the known '
-    'x<id>__fresh name which is reported as informational (no witness pair '
-    'of differing -j 1 runs could be produced).',
+    'and hashes reach neither leaf text nor sort keys; the one flow found, '
+    'the fresh-variable name x<id>__fresh, is a recorded known finding '
+    '(genuine defect with a witness pair of differing -j 1 runs, '
+    'findings/C18_R4_fresh_variable_name/; not repairable without editing '
+    'the unit test that pins the name).',
     'Partial: byte-identity of two real runs is an experiment and is not '
     'decided. Trusted: Python guarantees (dict insertion order, stable '
     'sorted), CPython ast.',
